@@ -715,6 +715,48 @@ func c13Validity(c *core.Ctx, pkg *packages.Package) {
 		res := t.Run()
 		c.Check(res.OK(), "R6", "validity:field="+fld, asg.Pos(), fmt.Sprintf("bound lowered to %s ⇔ windowStart ≤ %s < bound, independent of any other condition: %s", fld, fld, res.Summary()), res.Rows)
 	}
+	// the partition-ring cache: same rule over PartitionDesc.StateTimestamp (the partition walk treats ts ≥ windowStart as inside the window)
+	pf := an.FindFunc(pkg, "partitionRingShuffleShardCache.setSubringWithLookback")
+	if pf == nil {
+		c.Miss("R6", "func=partitionRingShuffleShardCache.setSubringWithLookback", "not found")
+		return
+	}
+	c.Analysed(pf.String())
+	pg := pf.Graph()
+	var ploop *ast.RangeStmt
+	pf.InspectShallow(func(n ast.Node) bool {
+		if rs, ok := n.(*ast.RangeStmt); ok && strings.HasSuffix(pf.Canon(rs.X), ".desc.Partitions") {
+			ploop = rs
+		}
+		return true
+	})
+	if ploop == nil {
+		c.Undec("R6", "validity:partition", pf.Pos(), "loop over the subring's partitions not found")
+		return
+	}
+	ph, pb, _ := pg.LoopBlocks(ploop)
+	pelem := "each(" + pf.Canon(ploop.X) + ")"
+	var pasg *ast.AssignStmt
+	ast.Inspect(ploop.Body, func(n ast.Node) bool {
+		if as, ok := n.(*ast.AssignStmt); ok && len(as.Lhs) == 1 && as.Tok == token.ASSIGN && pf.Canon(as.Rhs[0]) == pelem+".StateTimestamp" {
+			pasg = as
+		}
+		return true
+	})
+	if pasg == nil {
+		c.Undec("R6", "validity:partition", ploop.Pos(), "no assignment `bound = partition.StateTimestamp` in the loop (a different formulation of the running minimum is not recognised)")
+		return
+	}
+	pbound := pasg.Lhs[0].(*ast.Ident).Name
+	pboundObj := pf.ObjOf(pasg.Lhs[0])
+	pt := an.Table{G: pg, From: an.Loc{B: pb, I: 0}, Opts: an.ExecOpts{Header: ph, NoTrack: map[types.Object]bool{pboundObj: true}}, FreeUnknown: true,
+		Atoms: []an.Atom{{Name: "vsStart", Values: []string{"lt", "eq", "gt"}}, {Name: "vsBound", Values: []string{"lt", "eq", "gt"}}},
+		Binder: &an.Binder{Fn: pf, Roles: an.Roles{{From: pelem, To: "i"}},
+			Cmp: map[string]string{"i.StateTimestamp|p3.Add(-p2).Unix()": "vsStart", "i.StateTimestamp|" + pbound: "vsBound"}},
+		Targets: []an.Loc{pg.Locate(pasg)}, Names: []string{"bound = StateTimestamp"},
+		Want: func(r an.Row, _ int) an.Tri { return an.FromBool(r["vsStart"] != "lt" && r["vsBound"] == "lt") }}
+	pres := pt.Run()
+	c.Check(pres.OK(), "R6", "validity:partition", pasg.Pos(), "partition cache: bound lowered to StateTimestamp ⇔ windowStart ≤ StateTimestamp < bound, independent of any other condition: "+pres.Summary(), pres.Rows)
 }
 
 // c13Fills: a computed shard is stored in a cache only when the ring's topology stamp still equals the
